@@ -29,7 +29,7 @@ RULE = ("case = listener community x sequence of 1..12 datagrams from {valid v2c
         "payload bindings; distinct = SHA-1 of canonical JSON case")
 ASSUMPTIONS = [
     "an exception raised out of datagram_received is handled as asyncio does (logged by the loop's exception handler, listener alive)",
-    "a mutated datagram that the independent decoder still reads as a matching, well-formed SNMPv2-Trap must be delivered with the content read; one it reads as foreign-community must not be delivered; for anything the strict decoder rejects, or a well-formed non-notification PDU, either outcome is accepted",
+    "a mutated datagram that the independent decoder still reads as a matching, well-formed SNMPv2-Trap must be delivered with the content read; one it reads as foreign-community must not be delivered; a datagram whose outermost TLV is not a SEQUENCE or announces more octets than arrived must not be delivered; for anything else the strict decoder rejects, or a well-formed non-notification PDU, either outcome is accepted",
     "runs under the x690 indefinite-length guard (known finding of C20) and a CPU alarm",
 ]
 REQUIRED_CLASSES = {"valid_after_invalid": 0.30, "ipv6_source": 0.10, "other_version_first": 0.05, "payload>=3": 0.20}
@@ -74,11 +74,32 @@ def datagram_of(item, items):
     raise ValueError(k)
 
 
+def _outer_truncated(data):
+    """definite outer length larger than what follows it"""
+    if len(data) < 2:
+        return True
+    first = data[1]
+    if first < 0x80:
+        return first > len(data) - 2
+    n = first & 0x7F
+    if n == 0 or len(data) < 2 + n:
+        return n != 0
+    return int.from_bytes(data[2:2 + n], "big") > len(data) - 2 - n
+
+
 def classify(data, community):
     """-> ('deliver', content) | ('drop',) | ('either',) per the independent decoder"""
     try:
         m = vber.parse_message(data)
     except vber.BerError:
+        # what the strict decoder rejects is not necessarily malformed for a lenient one -- but some datagrams are no SNMP
+        # message under any reading: the outermost TLV is not a SEQUENCE, or it announces more octets than arrived
+        if not data or data[0] != 0x30:
+            return ("drop",)
+        try:
+            _tag, start, end = vber.read_tlv(data, 0)
+        except vber.BerError:
+            return ("drop",) if _outer_truncated(data) else ("either",)
         return ("either",)
     if m["version"] == 3:
         return ("either",)      # not an SNMPv2c datagram; the statement does not say what happens to it
@@ -367,7 +388,7 @@ def cases(draw):
         elif k == "truncate":
             items.append(dict(kind="truncate", base=base, n=draw(st.integers(0, 400)), addr=base["addr"]))
         elif k == "flip":
-            items.append(dict(kind="flip", base=base, bit=draw(st.integers(0, 4000)), addr=base["addr"]))
+            items.append(dict(kind="flip", base=base, bit=draw(st.one_of(st.integers(0, 4000), st.integers(0, 4000), st.integers(0, 23))), addr=base["addr"]))
         elif k == "short":
             items.append(dict(kind="short", addr=base["addr"]))
         else:
